@@ -159,6 +159,25 @@ LONG_REGS = {29: 9, 30: 4, 31: BASE}
 LONG_WORDS = {BASE + 4: 0x01020304}
 
 
+def regsweep_shard(shard):
+    """The dependency templates of C02 through every register x1..x31, cycle by cycle against the reference machine."""
+    from vf.checks import c02
+    part, parts, hazard, oracle = shard
+    p = Partial()
+    for i, (reg, k, prog) in enumerate(c02.regsweep_programs()):
+        if i % parts != part:
+            continue
+        ref, bad = pipecmp.lockstep(prog, c02.REGSWEEP_REGS, c02.REGSWEEP_WORDS, 60, hazard, WANT)
+        p.evaluations += 1
+        p.traces += 1
+        p.transitions += ref.cyc
+        p.nontrivial += 1
+        p.counters["dependency-through-every-register"] += 1
+        for f, d in bad:
+            p.violation(dict(oracle=oracle, field=f), pipecmp.case_of(prog, c02.REGSWEEP_REGS, c02.REGSWEEP_WORDS, 60, hazard), f"[{rv.prog_text(prog)}] hazard_detection={hazard}: {d}", size=(len(prog), reg, k))
+    return p
+
+
 def long_shard(shard):
     seed, k, hazard, oracle = shard
     name, prog, n = long_programs(seed)[k]
@@ -229,6 +248,10 @@ def run(ctx):
     part = pmap(long_shard, [(seed, k, True, ORACLE) for k in range(len(long_programs(seed)))])
     ctx.space("long-runs", part, t0, programs=[n for n, _p, _k in long_programs(seed)])
     ctx.require("run-longer-than-256-cycles", "run-longer-than-2000-cycles")
+    t0 = time.time()
+    part = pmap(regsweep_shard, [(i, 16, True, ORACLE) for i in range(16)])
+    ctx.space("dependencies-through-every-register", part, t0, registers="x1..x31", templates=12)
+    ctx.require("dependency-through-every-register")
     pipecmp.fixed_point(ctx, seed, False, True, 12, "fixed-point-F12")
     if thorough:
         pipecmp.fixed_point(ctx, seed, True, True, 12, "fixed-point-F16")
